@@ -191,9 +191,11 @@ Definition agrees (c : case) : bool :=
   match partial_forward s e with
   | None =>
       (all2 req_matches fwd (h_breqs c) ||
-       (* the proxy gives up on a reply it cannot parse and closes at once: whether the backend had
-          already read the request just forwarded is a race of the TCP teardown *)
-       (match e with EBadReply => all2 req_matches (removelast fwd) (h_breqs c) | _ => false end)) &&
+       (* the proxy closes the backend connection while backend bytes are still unread (it gave up on a
+          reply it cannot parse, or the backend had written more than its replies): the kernel resets the
+          connection, and whether the backend had already read the request just forwarded is a race *)
+       ((match e with EBadReply => true | _ => false end || negb (match s_bbuf s ++ concat (s_bq s) with [] => true | _ => false end))
+        && all2 req_matches (removelast fwd) (h_breqs c))) &&
       negb (h_bgarbage c) &&
       (h_bconns c =? (match h_breqs c with [] => 0 | _ => 1 end))%N
   | Some m =>
